@@ -33,6 +33,16 @@ def gen_groups(rs, d):
     r = rs.rand()
     if r < 0.34 or d < 2:
         return None, "none"
+    if d >= 4 and rs.rand() < 0.2:
+        # listings that LOOK like a contiguous run when only their ends are inspected (last - first == len - 1, or
+        # max - min == len - 1 fails but the ends are close) although the members are scattered
+        pats = [[[1, 0, 3]], [[0, 3, 2]], [[2, 0, 1, 3][:3]], [[1, 3, 2, 0][:3], [0]]]
+        if d >= 6:
+            pats += [[[0, 5, 2]], [[4, 1, 5]], [[2, 5, 0, 3]], [[0, 5, 2], [1, 3]]]
+        g = pats[rs.randint(len(pats))]
+        flat = [i for grp in g for i in grp]
+        if len(set(flat)) == len(flat) and max(flat) < d:
+            return [list(map(int, grp)) for grp in g], "partial-scattered"
     perm = [int(i) for i in rs.permutation(d)]
     if r < 0.67:
         # partial: one or two groups over a strict subset of the features
